@@ -343,7 +343,7 @@ Proof.
   - (* accounting *)
     assert (A2 : Acct s2).
     { destruct (ie_acct _ I) as [A B]. constructor; [|exact B]. change (numfds s2) with (numfds s). rewrite A.
-      apply cntf_ext. intros x _. destruct (Z.eq_dec x key) as [->|N]; [rewrite F2k; congruence|rewrite F2o by assumption; reflexivity]. }
+      apply cntf_ext. intros x _. destruct (Z.eq_dec x key) as [->|N]; [rewrite F2k, UR; reflexivity|rewrite F2o by assumption; reflexivity]. }
     assert (A3' : Acct s3).
     { apply (Acct_fd key s2 s3 1); try assumption; [subst key; lia|]. right; left. rewrite F2k. tauto. }
     destruct A3'. constructor; assumption.
